@@ -282,6 +282,7 @@ func runC11Matrix(c *Ctx) {
 						if embed {
 							o.EmbedCert = w.SPEnc
 						}
+						o.B64Layout = combo / 3 // every layout of the base64 content with every algorithm, transport and placement
 						// plaintexts of this combination: thorough = all; quick = a rotating window so that every length and
 						// every special ending meets every data algorithm, plus the trailing-zero / pad-like endings for CBC
 						var idx []int
@@ -308,6 +309,7 @@ func runC11Matrix(c *Ctx) {
 	for _, alg := range dataAlgs {
 		o := EncOpts{DataAlg: alg, Transport: types.MethodRSAOAEP, To: w.SPEnc}
 		for pi := range plains {
+			o.B64Layout = pi
 			runC11Case(c, cs, pool, &spCert, o, plains[pi], false)
 		}
 	}
@@ -317,6 +319,13 @@ func runC11Matrix(c *Ctx) {
 		o.EmbedCert = w.Other
 		runC11Case(c, cs, pool, &spCert, o, []byte("mismatch"), true)
 	}
+}
+
+// the result of the previous successful DecryptBytes call and a private copy of what it read when it was returned
+var c11Prev struct {
+	out, want []byte
+	desc      string
+	replay    map[string]interface{}
 }
 
 func runC11Case(c *Ctx, cs *CaseSet, pool *keyPool, spCert *tls.Certificate, o EncOpts, plain []byte, expectRefused bool) {
@@ -334,6 +343,15 @@ func runC11Case(c *Ctx, cs *CaseSet, pool *keyPool, spCert *tls.Certificate, o E
 	}
 	out, err, panicked, obs := runDecryptBytes(ea, spCert)
 	cbc := !isGCM(o.DataAlg)
+	// a plaintext handed out EARLIER is the caller's: decrypting the next assertion must not change it
+	if c11Prev.out != nil && !bytes.Equal(c11Prev.out, c11Prev.want) {
+		rp := map[string]interface{}{"op": "types.EncryptedAssertion.DecryptBytes twice, the first result kept", "first": c11Prev.replay, "second": replay}
+		c.Violate("spec", "roundtrip:earlier-result-overwritten", fmt.Sprintf("the plaintext returned by an earlier DecryptBytes call (%s) read %x when it was returned and reads %x after the next call (%s)", c11Prev.desc, c11Prev.want, c11Prev.out, desc), rp)
+	}
+	c11Prev.out, c11Prev.want, c11Prev.desc, c11Prev.replay = nil, nil, "", nil
+	if err == nil && panicked == "" {
+		c11Prev.out, c11Prev.want, c11Prev.desc, c11Prev.replay = out, append([]byte{}, out...), desc, replay
+	}
 	c.Count("alg=" + shortAlg(o.DataAlg))
 	c.Count("transport=" + shortAlg(o.Transport))
 	c.Count("digest=" + shortAlg(o.Digest))
